@@ -90,7 +90,7 @@ def run(ck):
                  'every trace entry is also checked to be the exact optimum of its retained points (C06 predicate) '
                  'and its rmse/mae/std to be recomputable from the retained points']
     rng = ck.rng
-    N = ck.n(72, 1500)
+    N = ck.n(72, 900)
     nmax = ck.n(20, 40)
     cases, meta = [], []
     todo = []
